@@ -260,8 +260,10 @@ class Result:
 
 
 class Evaluator:
-    def __init__(self, facts, inline=True, max_depth=5, no_inline=(), inline_only=None):
+    def __init__(self, facts, inline=True, max_depth=5, no_inline=(), inline_only=None, assume=()):
         self.facts = facts
+        # specialisation: atoms replaced by given values whenever they are read (e.g. opts.unify := 1)
+        self.assume = dict(assume)
         self.inline = inline
         self.max_depth = max_depth
         self.no_inline = [re.compile(x) for x in no_inline]
@@ -630,8 +632,12 @@ class Evaluator:
         if st[0] == "val":
             v = st[1]
             # field of payloads like (x as Ok).0 on an opaque value
-            return self._simplify(v)
-        return self._heap_read(st[1], st[2], st[3], frame)
+            v = self._simplify(v)
+        else:
+            v = self._heap_read(st[1], st[2], st[3], frame)
+        if self.assume and isinstance(v, tuple) and v in self.assume:
+            return self.assume[v]
+        return v
 
     def _simplify(self, v):
         # ('field', ('downcast', X, V), i) -> ('payload', X, V, i) with cas_ok simplification
